@@ -240,6 +240,9 @@ func (s *Sim) logf(format string, args ...any) {
 	}
 }
 
+// Debugf logs a harness message in verbose replays (no effect on the schedule).
+func (s *Sim) Debugf(format string, args ...any) { s.logf(format, args...) }
+
 // ---------------------------------------------------------------------------
 // goroutine identity
 
